@@ -565,6 +565,11 @@ def emit_case(c, o) -> str:
         if c.get("exact") and all(math.isfinite(fx(v)) for v in o["gs"] + o["pcs"] + o["rs"]):
             inj = f"(Some {q(float(c['ninj']))})" if c.get("inj") else "None"
             return f"KCdmX {ql(o['gs'])} {ql(o['pcs'])} {ql(o['rs'])} {inj} {qll(o['lines_in'])} {qll(o['lines_out'])}"
+        if "tbls" in o:
+            inj = f"(Some {q(float(c['ninj']))})" if c.get("inj") else "None"
+            tbls = core.clist(core.clist(core.clist(f"({q(f[0])}, {q(f[1])})" for f in row) for row in tbl)
+                              for tbl in o["tbls"])
+            return f"KCdmT {ql(o['gs'])} {ql(o['rs'])} {inj} {tbls} {qll(o['lines_in'])} {qll(o['lines_out'])}"
         return f"KCdm {qll(o['lines_in'])} {qll(o['lines_out'])}"
     raise ValueError(k)
 
@@ -688,6 +693,21 @@ def is_nontrivial(c) -> bool:
     return any(v > 0.01 for v in flat(c["frame"]))
 
 
+def coq_eval_limited(ctx: Ctx, files):
+    """coq_eval_many with a cap on the address space of the coqc processes (a case whose exact fractions explode
+    must fail - and be reported as a case file that did not evaluate - instead of exhausting the machine)."""
+    import resource
+
+    soft, hard = resource.getrlimit(resource.RLIMIT_AS)
+    cap = 8 << 30
+    try:
+        if hard == resource.RLIM_INFINITY or cap <= hard:
+            resource.setrlimit(resource.RLIMIT_AS, (cap, hard))
+        return core.coq_eval_many(ctx, files, timeout=600, par=8)
+    finally:
+        resource.setrlimit(resource.RLIMIT_AS, (soft, hard))
+
+
 def evaluate(ctx: Ctx, cases, tag="c", per=40, workers=8):
     """Run the implementation and let Coq compare / judge.  Returns (pairs, mismatch idx set, violation idx set)."""
     obs = core.run_driver(ctx, "c15", cases, workers=workers)
@@ -697,18 +717,23 @@ def evaluate(ctx: Ctx, cases, tag="c", per=40, workers=8):
             ctx.broken.append(Broken("correspondence", "implementation driver failed", str(o)[:600], c))
             continue
         pairs.append((c, o))
-    files = {}
-    for k in range(0, len(pairs), per):
-        files[f"{tag}_{k // per:03d}"] = emit_file(pairs[k:k + per])
-    res = core.coq_eval_many(ctx, files, timeout=900, par=8)
+    # chunks: CDM cases run long exact-arithmetic chains, so they go into smaller files (more parallelism)
+    files, starts, k = {}, {}, 0
+    while k < len(pairs):
+        size = 10 if pairs[k][0]["kind"] == "cdm" else per
+        name = f"{tag}_{len(files):03d}"
+        files[name] = emit_file(pairs[k:k + size])
+        starts[name] = k
+        k += size
+    res = coq_eval_limited(ctx, files)
     mism, viol = set(), set()
-    for k, name in enumerate(sorted(files)):
+    for name in sorted(files):
         ok, evals, se = res[name]
         if not ok or len(evals) != 2:
             ctx.broken.append(Broken("correspondence", f"case file {name}.v did not evaluate", core.tail(se, 15)))
             continue
-        mism |= {k * per + i for i in core.parse_int_list(evals[0])}
-        viol |= {k * per + i for i in core.parse_int_list(evals[1])}
+        mism |= {starts[name] + i for i in core.parse_int_list(evals[0])}
+        viol |= {starts[name] + i for i in core.parse_int_list(evals[1])}
     return pairs, mism, viol
 
 
